@@ -21,6 +21,7 @@ type requestStream struct {
 	totalBytesRead  int
 	chunkLeft       int
 	eof             bool
+	err             error // sticky chunked framing error
 }
 
 func (rs *requestStream) Read(p []byte) (int, error) {
@@ -32,14 +33,20 @@ func (rs *requestStream) Read(p []byte) (int, error) {
 		if rs.eof {
 			return 0, io.EOF
 		}
+		if rs.err != nil {
+			// The chunked framing is broken: there is no way to resume.
+			return 0, rs.err
+		}
 		if rs.chunkLeft == 0 {
 			chunkSize, err := parseChunkSize(rs.reader)
 			if err != nil {
+				rs.err = err
 				return 0, err
 			}
 			if chunkSize == 0 {
 				err = rs.header.ReadTrailer(rs.reader)
 				if err != nil && err != io.EOF {
+					rs.err = err
 					return 0, err
 				}
 				rs.eof = true
@@ -56,6 +63,7 @@ func (rs *requestStream) Read(p []byte) (int, error) {
 		}
 		if err == nil && rs.chunkLeft == 0 {
 			err = readCrLf(rs.reader)
+			rs.err = err
 		}
 		return n, err
 	}
@@ -112,6 +120,7 @@ func releaseRequestStream(rs *requestStream) {
 	rs.totalBytesRead = 0
 	rs.chunkLeft = 0
 	rs.eof = false
+	rs.err = nil
 	rs.reader = nil
 	rs.header = nil
 	requestStreamPool.Put(rs)
